@@ -152,7 +152,8 @@ fn check_helper<G: Grp>(q: &PV, s: &[u8], k: &[u8], delta: &PV, mode: u8) -> Out
     let rq = ref_pv(g, q);
     // R = s*G - k*Q (+ delta): mode 0 exact, 1 + low-order point (Edwards) / exact (others), 2 + delta (arbitrary point)
     let base_r: G = G::sub(G::mulgen(&ss, 0), G::mul(qp, &ks, 0), 0);
-    let ref_base = r.sub(&r.mul(&si, &r.base()), &r.mul(&ki, &rq));
+    let (sb, kq) = (r.mul(&si, &r.base()), r.mul(&ki, &rq));
+    let ref_base = r.sub(&sb, &kq);
     let (rp, rr): (G, _) = match mode % 3 {
         1 if is_edwards(g) => {
             let t = PSrc::Torsion(s.first().copied().unwrap_or(1));
@@ -162,7 +163,7 @@ fn check_helper<G: Grp>(q: &PV, s: &[u8], k: &[u8], delta: &PV, mode: u8) -> Out
         _ => (base_r, ref_base),
     };
     // expected verdict from the reference: c*(s*G - R - k*Q) == neutral, c = cofactor on Edwards, 1 elsewhere
-    let t = r.sub(&r.sub(&r.mul(&si, &r.base()), &rr), &r.mul(&ki, &rq));
+    let t = r.sub(&r.sub(&sb, &rr), &kq);
     let c = match g { 0 => 8u32, 1 => 4, _ => 1 };
     let expected = r.is_neutral(&r.mul(&BigUint::from(c), &t));
     acc.nt(true);
